@@ -1,5 +1,6 @@
 import Hyeong.Spec.Definition
 import Hyeong.Lemmas.SimStep
+import Hyeong.Lemmas.CopyBasic
 /-!
 # the stand-alone definition (`Spec.Definition`) and the generic step at `Option Rat` are the same thing
 -/
@@ -77,7 +78,86 @@ theorem push_eq (s : State) (i : Nat) (v : V) : pushWrap (toM s) i v = toRes toM
         simp only [e2, Bool.and_false, Bool.false_eq_true, ↓reduceIte, e3, toRes]
         rfl
 
-theorem pop_eq (s : State) (i : Nat) :
+/-- every line still unread is text (`splitLines` never yields an empty line). In the interpreter model an empty
+list in `stdin` stands for a line that is not UTF-8 — something the language definition does not know -/
+def OkIn (s : State) : Prop := ∀ l ∈ s.input, l ≠ []
+
+theorem okIn_initial (input : List Char) : OkIn (initial input) := (splitLines_flatten input).2
+
+theorem push_in (s : State) (i : Nat) (v : V) (s' : State) (h : push s i v = .ok s') : s'.input = s.input := by
+  unfold push at h
+  split at h
+  · split at h <;> first | (cases h; rfl) | cases h
+  · split at h
+    · split at h <;> first | (cases h; rfl) | cases h
+    · split at h <;> (cases h; rfl)
+
+theorem refill_ok (s : State) (h : OkIn s) : OkIn (refill s) := by
+  unfold refill
+  split
+  · split
+    · exact h
+    · rename_i line rest hin
+      intro l hl
+      exact h l (by rw [hin]; exact List.mem_cons_of_mem _ hl)
+  · exact h
+
+theorem pop_ok (s : State) (i : Nat) (h : OkIn s) (v : V) (s' : State) (hp : pop s i = .ok (v, s')) : OkIn s' := by
+  unfold pop at hp
+  split at hp
+  · cases hp
+  · split at hp
+    · cases hp
+    · have hr : OkIn (if i = 0 then refill s else s) := by
+        split
+        · exact refill_ok s h
+        · exact h
+      revert hp
+      generalize (if i = 0 then refill s else s) = t at hr
+      intro hp
+      simp only at hp
+      split at hp
+      · cases hp; exact hr
+      · cases hp; exact hr
+
+theorem popMany_ok (i : Nat) : ∀ (n : Nat) (s : State), OkIn s → ∀ vs s', popMany s i n = .ok (vs, s') → OkIn s' := by
+  intro n
+  induction n with
+  | zero => intro s h vs s' hp; cases hp; exact h
+  | succ n ih =>
+    intro s h vs s' hp
+    simp only [popMany] at hp
+    cases hq : pop s i with
+    | error e => rw [hq] at hp; cases hp
+    | ok r =>
+      obtain ⟨v, s1⟩ := r
+      rw [hq] at hp
+      simp only at hp
+      cases hr : popMany s1 i n with
+      | error e => rw [hr] at hp; cases hp
+      | ok r2 =>
+        obtain ⟨ws, s2⟩ := r2
+        rw [hr] at hp
+        cases hp
+        exact ih s1 (pop_ok s i h v s1 hq) _ _ hr
+
+theorem pushMany_in (i : Nat) : ∀ (l : List V) (s s' : State), pushMany s i l = .ok s' → s'.input = s.input := by
+  intro l
+  induction l with
+  | nil => intro s s' h; cases h; rfl
+  | cons v vs ih =>
+    intro s s' h
+    simp only [pushMany] at h
+    cases hq : push s i v with
+    | error e => rw [hq] at h; cases h
+    | ok s1 =>
+      rw [hq] at h
+      rw [ih s1 s' h, push_in s i v s1 hq]
+
+theorem okIn_of_input {s s' : State} (h : OkIn s) (e : s'.input = s.input) : OkIn s' := by
+  unfold OkIn; rw [e]; exact h
+
+theorem pop_eq (s : State) (i : Nat) (hok : OkIn s) :
     popWrap (toM s) i = toRes (fun r : V × State => (r.1, toM r.2)) (pop s i) := by
   unfold popWrap pop
   by_cases h0 : i = 0
@@ -103,7 +183,7 @@ theorem pop_eq (s : State) (i : Nat) :
         have e3 : (toM s).2.stdin = line :: rest := hi
         simp only [e3, popRaw, lineStack_V]
         cases line with
-        | nil => simp only [List.map_nil, put, setStack, ↓reduceIte, toRes]; rfl
+        | nil => exact absurd rfl (hok [] (by rw [hi]; exact List.mem_cons_self))
         | cons c cs => simp only [List.map_cons, put, setStack, ↓reduceIte, toRes]; rfl
   · by_cases h1 : i = 1
     · subst h1; rfl
@@ -120,19 +200,19 @@ theorem pop_eq (s : State) (i : Nat) :
           simp only [e2, toRes]
           rfl
 
-theorem popMany_eq (i : Nat) : ∀ (n : Nat) (s : State),
+theorem popMany_eq (i : Nat) : ∀ (n : Nat) (s : State), OkIn s →
     popN (toM s) i n = toRes (fun r : List V × State => (r.1, toM r.2)) (popMany s i n) := by
   intro n
   induction n with
-  | zero => intro s; rfl
+  | zero => intro s _; rfl
   | succ n ih =>
-    intro s
-    simp only [popN, popMany, pop_eq]
+    intro s hok
+    simp only [popN, popMany, pop_eq s i hok]
     cases hp : pop s i with
     | error e => obtain ⟨h, s'⟩ := e; rfl
     | ok r =>
       obtain ⟨v, s1⟩ := r
-      simp only [toRes, Res.andThen, ih]
+      simp only [toRes, Res.andThen, ih s1 (pop_ok s i hok v s1 hp)]
       cases hq : popMany s1 i n with
       | error e => obtain ⟨h, s'⟩ := e; rfl
       | ok r2 => obtain ⟨vs, s2⟩ := r2; rfl
@@ -166,9 +246,105 @@ theorem product_eq (vs : List V) : product vs = vs.foldl NumOps.mul NumOps.one :
 theorem negated_fun : (negated : V → V) = NumOps.neg := by funext a; exact negated_eq a
 theorem inverted_fun : (inverted : V → V) = NumOps.inv := by funext a; exact inverted_eq a
 
-theorem command_eq (s : State) (c : Cmd) : execCmd (toM s) c = toRes toM (command s c) := by
+theorem command_ok (s : State) (c : Cmd) (hok : OkIn s) (s' : State) (h : command s c = .ok s') : OkIn s' := by
+  unfold command at h
+  simp only at h
+  have pm : ∀ vs s1, popMany s s.selected c.hangul = .ok (vs, s1) → OkIn s1 := fun vs s1 hp => popMany_ok _ _ s hok vs s1 hp
+  split at h
+  · exact okIn_of_input hok (push_in _ _ _ _ h)
+  · split at h
+    · cases hp : popMany s s.selected c.hangul with
+      | error e => rw [hp] at h; cases h
+      | ok r => obtain ⟨vs, s1⟩ := r; rw [hp] at h; exact okIn_of_input (pm vs s1 hp) (push_in _ _ _ _ h)
+    · split at h
+      · cases hp : popMany s s.selected c.hangul with
+        | error e => rw [hp] at h; cases h
+        | ok r => obtain ⟨vs, s1⟩ := r; rw [hp] at h; exact okIn_of_input (pm vs s1 hp) (push_in _ _ _ _ h)
+      · split at h
+        · cases hp : popMany s s.selected c.hangul with
+          | error e => rw [hp] at h; cases h
+          | ok r =>
+            obtain ⟨vs, s1⟩ := r; rw [hp] at h
+            simp only at h
+            cases hq : pushMany s1 s.selected (vs.reverse.map negated) with
+            | error e => rw [hq] at h; cases h
+            | ok s2 =>
+              rw [hq] at h
+              exact okIn_of_input (okIn_of_input (pm vs s1 hp) (pushMany_in _ _ _ _ hq)) (push_in _ _ _ _ h)
+        · split at h
+          · cases hp : popMany s s.selected c.hangul with
+            | error e => rw [hp] at h; cases h
+            | ok r =>
+              obtain ⟨vs, s1⟩ := r; rw [hp] at h
+              simp only at h
+              cases hq : pushMany s1 s.selected (vs.reverse.map inverted) with
+              | error e => rw [hq] at h; cases h
+              | ok s2 =>
+                rw [hq] at h
+                exact okIn_of_input (okIn_of_input (pm vs s1 hp) (pushMany_in _ _ _ _ hq)) (push_in _ _ _ _ h)
+          · cases hp : pop s s.selected with
+            | error e => rw [hp] at h; cases h
+            | ok r =>
+              obtain ⟨v, s1⟩ := r; rw [hp] at h
+              simp only at h
+              cases hq : pushMany s1 c.dots (List.replicate c.hangul v) with
+              | error e => rw [hq] at h; cases h
+              | ok s2 =>
+                rw [hq] at h
+                simp only at h
+                cases hw : push s2 s.selected v with
+                | error e => rw [hw] at h; cases h
+                | ok s3 =>
+                  rw [hw] at h
+                  cases h
+                  exact okIn_of_input (okIn_of_input (okIn_of_input (pop_ok s _ hok v s1 hp) (pushMany_in _ _ _ _ hq)) (push_in _ _ _ _ hw)) rfl
+
+theorem walk_ok (count : Nat) : ∀ (a : Area) (s : State), OkIn s → ∀ t s', walk count a s = .ok (t, s') → OkIn s' := by
+  intro a
+  induction a with
+  | nil => intro s hok t s' h; cases h; exact hok
+  | val tg l r ihl ihr =>
+    intro s hok t s' h
+    simp only [walk] at h
+    split at h
+    · cases hp : pop s s.selected with
+      | error e => rw [hp] at h; cases h
+      | ok res =>
+        obtain ⟨v, s1⟩ := res
+        rw [hp] at h
+        simp only at h
+        have h1 := pop_ok s _ hok v s1 hp
+        split at h
+        · exact ihl s1 h1 t s' h
+        · exact ihr s1 h1 t s' h
+    · split at h
+      · cases hp : pop s s.selected with
+        | error e => rw [hp] at h; cases h
+        | ok res =>
+          obtain ⟨v, s1⟩ := res
+          rw [hp] at h
+          simp only at h
+          have h1 := pop_ok s _ hok v s1 hp
+          split at h
+          · exact ihl s1 h1 t s' h
+          · exact ihr s1 h1 t s' h
+      · cases h; exact hok
+
+theorem go_in (s : State) (c : Cmd) (pc tag : Nat) : (go s c pc tag).1.input = s.input := by
+  unfold go
+  split
+  · rfl
+  · split
+    · split <;> rfl
+    · split
+      · split <;> rfl
+      · rfl
+
+theorem command_eq (s : State) (c : Cmd) (hok : OkIn s) : execCmd (toM s) c = toRes toM (command s c) := by
   unfold execCmd command
   have hsel : (toM s).1.cur = s.selected := rfl
+  have popMany_eq := fun i n => popMany_eq i n s hok
+  have pop_eq := fun i => pop_eq s i hok
   simp only [hsel]
   rcases hk : c.kind with _ | _ | _ | _ | _ | k
   · simp only [↓reduceIte]
@@ -218,15 +394,17 @@ theorem command_eq (s : State) (c : Cmd) : execCmd (toM s) c = toRes toM (comman
         | error e => obtain ⟨h, s'⟩ := e; rfl
         | ok s3 => rfl
 
-theorem walk_eq (count : Nat) : ∀ (a : Area) (s : State),
+theorem walk_eq (count : Nat) : ∀ (a : Area) (s : State), OkIn s →
     areaCalc (toM s) count a = toRes (fun r : Nat × State => (r.1, toM r.2)) (walk count a s) := by
   intro a
   induction a with
-  | nil => intro s; rfl
+  | nil => intro s _; rfl
   | val t l r ihl ihr =>
-    intro s
+    intro s hok
     have hsel : (toM s).1.cur = s.selected := rfl
-    simp only [areaCalc, walk, hsel, pop_eq]
+    have ihl := fun s1 (v : V) (hp : pop s s.selected = .ok (v, s1)) => ihl s1 (pop_ok s _ hok v s1 hp)
+    have ihr := fun s1 (v : V) (hp : pop s s.selected = .ok (v, s1)) => ihr s1 (pop_ok s _ hok v s1 hp)
+    simp only [areaCalc, walk, hsel, pop_eq s _ hok]
     by_cases h0 : t = 0
     · simp only [h0, ↓reduceIte]
       cases hp : pop s s.selected with
@@ -235,16 +413,16 @@ theorem walk_eq (count : Nat) : ∀ (a : Area) (s : State),
         obtain ⟨v, s1⟩ := res
         simp only [toRes, Res.andThen]
         cases v with
-        | none => simp only [isLess, Bool.false_eq_true, ↓reduceIte]; exact ihr s1
+        | none => simp only [isLess, Bool.false_eq_true, ↓reduceIte]; exact ihr s1 _ hp
         | some q =>
           have hc : (NumOps.cmp (some q : V) (NumOps.ofNat count)) = cmpV (some q) (some (count : Rat)) := rfl
           simp only [hc, cmpV, isLess]
           by_cases hlt : q < (count : Rat)
-          · simp only [hlt, ↓reduceIte, decide_true]; exact ihl s1
+          · simp only [hlt, ↓reduceIte, decide_true]; exact ihl s1 _ hp
           · simp only [hlt, ↓reduceIte, decide_false, Bool.false_eq_true]
             by_cases heq : q = (count : Rat)
-            · simp only [heq, ↓reduceIte]; exact ihr s1
-            · simp only [heq, ↓reduceIte]; exact ihr s1
+            · simp only [heq, ↓reduceIte]; exact ihr s1 _ hp
+            · simp only [heq, ↓reduceIte]; exact ihr s1 _ hp
     · simp only [h0, ↓reduceIte]
       by_cases h1 : t = 1
       · simp only [h1, ↓reduceIte]
@@ -254,17 +432,17 @@ theorem walk_eq (count : Nat) : ∀ (a : Area) (s : State),
           obtain ⟨v, s1⟩ := res
           simp only [toRes, Res.andThen]
           cases v with
-          | none => simp only [isEqual, Bool.false_eq_true, ↓reduceIte]; exact ihr s1
+          | none => simp only [isEqual, Bool.false_eq_true, ↓reduceIte]; exact ihr s1 _ hp
           | some q =>
             have hc : (NumOps.cmp (some q : V) (NumOps.ofNat count)) = cmpV (some q) (some (count : Rat)) := rfl
             simp only [hc, cmpV, isEqual]
             by_cases hlt : q < (count : Rat)
             · have hne : ¬ q = (count : Rat) := fun e => by rw [e] at hlt; exact absurd hlt (Rat.lt_irrefl)
-              simp only [hlt, ↓reduceIte, hne, decide_false, Bool.false_eq_true]; exact ihr s1
+              simp only [hlt, ↓reduceIte, hne, decide_false, Bool.false_eq_true]; exact ihr s1 _ hp
             · simp only [hlt, ↓reduceIte]
               by_cases heq : q = (count : Rat)
-              · simp only [heq, ↓reduceIte, decide_true]; exact ihl s1
-              · simp only [heq, ↓reduceIte, decide_false, Bool.false_eq_true]; exact ihr s1
+              · simp only [heq, ↓reduceIte, decide_true]; exact ihl s1 _ hp
+              · simp only [heq, ↓reduceIte, decide_false, Bool.false_eq_true]; exact ihr s1 _ hp
       · simp only [h1, ↓reduceIte]; rfl
 
 theorem go_eq (s : State) (c : Cmd) (pc tag : Nat) :
@@ -294,7 +472,7 @@ theorem go_eq (s : State) (c : Cmd) (pc tag : Nat) :
 /-- The stand-alone definition and the generic step at `Option Rat` agree after every number of commands:
 same text written, same unread input, same command index, same way of standing; and, while no halt has
 occurred, the same stacks / selected stack / labels / return point. -/
-theorem run_eq (p : List Cmd) : ∀ (n : Nat) (s : State) (pc : Nat),
+theorem run_eq (p : List Cmd) : ∀ (n : Nat) (s : State) (pc : Nat), OkIn s →
     (runN p n ⟨toM s, pc⟩).1.m.2 = toW (run p n s pc).1 ∧
     (runN p n ⟨toM s, pc⟩).1.loc = (run p n s pc).2.1 ∧
     (runN p n ⟨toM s, pc⟩).2 = toStatus (run p n s pc).2.2 ∧
@@ -302,22 +480,23 @@ theorem run_eq (p : List Cmd) : ∀ (n : Nat) (s : State) (pc : Nat),
   intro n
   induction n with
   | zero =>
-    intro s pc
+    intro s pc _
     simp only [runN, run]
     refine ⟨by first | rfl | trivial, by first | rfl | trivial, ?_, fun _ => (by first | rfl | trivial)⟩
     split <;> rfl
   | succ n ih =>
-    intro s pc
+    intro s pc hok
     simp only [runN, run]
     by_cases hl : pc < p.length
-    · simp only [hl, ↓reduceIte, step, List.getElem?_eq_getElem hl, stepCmd, command_eq]
+    · simp only [hl, ↓reduceIte, step, List.getElem?_eq_getElem hl, stepCmd, command_eq s _ hok]
       cases hc : command s p[pc] with
       | error e =>
         obtain ⟨h, s'⟩ := e
         simp only [toRes, Res.andThen]
         exact ⟨by first | rfl | trivial, by first | rfl | trivial, by first | rfl | trivial, fun hh => absurd rfl (hh h)⟩
       | ok s1 =>
-        simp only [toRes, Res.andThen, walk_eq]
+        have hok1 := command_ok s _ hok s1 hc
+        simp only [toRes, Res.andThen, walk_eq _ _ s1 hok1]
         cases hw : walk p[pc].areaCount p[pc].area s1 with
         | error e =>
           obtain ⟨h, s'⟩ := e
@@ -340,7 +519,7 @@ theorem run_eq (p : List Cmd) : ∀ (n : Nat) (s : State) (pc : Nat),
                 · split <;> rfl
                 · rfl
           rw [e3]
-          exact ih (go s2 p[pc] pc tag).1 (go s2 p[pc] pc tag).2
+          exact ih (go s2 p[pc] pc tag).1 (go s2 p[pc] pc tag).2 (okIn_of_input (walk_ok _ _ s1 hok1 tag s2 hw) (go_in _ _ _ _))
     · have hn : p[pc]? = none := List.getElem?_eq_none (by omega)
       simp only [hl, ↓reduceIte, hn]
       exact ⟨by first | rfl | trivial, by first | rfl | trivial, by first | rfl | trivial, fun _ => (by first | rfl | trivial)⟩
